@@ -199,6 +199,7 @@ def _knobs(plan, dims):
     if "environ" in dims:
         k["environ"] = k2["environ"]
         k["cwd"] = k2.get("cwd")
+        k["cli_style"] = k2.get("cli_style", 0)      # another, equivalent spelling of the same command line
     if "schedule" in dims:
         k["sched_key"] = k2["sched_key"]
     if "buffers" in dims:
@@ -445,6 +446,8 @@ def _gen_c10(r, seed, child=False):
                 lines.append(ln)
         else:
             lines.append(G.expand(r, r.choice(G.LINES_A4), ctx))
+    if r.random() < 0.05:
+        lines.insert(r.randint(0, len(lines)), GC.boundary_line(r, ctx, boundary=r.choice([8192, 65536, 65536]), words=True))
     n = len(o["words"])
     low = sorted({w.lower() for w in o["words"]})
     if len(low) <= 3:
